@@ -30,7 +30,9 @@ RULE = ("primitives: every primitive class on boundary pools (length mod 8 in 0.
         "constructor arguments dropped (exhaustive when <= tier bound), unpopulated arguments filled, leaf values "
         "replaced by boundary values, list elements dropped/duplicated; each instance under KMIP 1.0,1.1,1.2,1.3,1.4,2.0: "
         "encode, decode with a fresh instance, no residue, re-encode == bytes, structural comparison (not __eq__), "
-        "and one shared object encoded under the versions up and down against fresh-copy encodings.  Falsy values: "
+        "and one shared object encoded under the versions up and down against fresh-copy encodings; decoded values "
+        "are independent: after further values of the class were decoded with fresh instances, a value decoded "
+        "earlier must still re-encode to the same bytes.  Falsy values: "
         "for every class and every constructor argument holding a primitive (raw value, primitive object, or list of "
         "them; unpopulated arguments filled from other examples), a truthy and a falsy sibling (False, 0, '', b'', "
         "[], enum member 0), alone and with the other arguments, under every version: where the truthy sibling's "
@@ -440,6 +442,19 @@ def replay(ctx, rep):
         extra = sorted(set(d_in) - set(IC.diff(n, n2)))
         print("lost inside the container only: %s" % extra)
         return not extra
+    if r.get("kind") == "alias":
+        lib = IC.Library()
+        cls = lib.classes[r["class"]][0]
+        v = IC.vof(r["version"])
+        objs = []
+        for h in r["encodings"]:
+            o, _ = IC.dec(cls, bytes.fromhex(h), v)
+            objs.append((o, IC.enc(o, v)))
+        for h in r["encodings"]:
+            IC.dec(cls, bytes.fromhex(h), v)
+        bad = [i for i, (o, e) in enumerate(objs) if IC.enc(o, v) != e]
+        print("decoded values that changed after later decodes: %s" % bad)
+        return not bad
     if r.get("kind") == "falsy":
         lib = IC.Library()
         cls = lib.classes[r["class"]][0]
